@@ -55,6 +55,12 @@ claim("C13", "Objective",
       "Pseudo-inverse identities are floating-point relations evaluated by the monitor, not by TLC (DESIGN §6); D11. Trusted: TLC, Fraction, numpy svd/eigvalsh in the monitor.",
       "DESIGN.md §5 C13")
 
+claim("C14", "Objective",
+      "TLA+ specs ObjectiveSim.tla (exact simulation + ZeroAtTruth invariant on the objective pipeline), SimSeed.tla (global RNG state machine, Reproducible invariant, every history replayed) and ModelCombos.tla (combination space of builtin megacomplexes); real simulate()/objective/optimize compared with the emitted data, clps and histories",
+      "Lattice: simulate() must equal the exactly computed integer data for every case and the fit side must have zero objective and clps = generating clps / dataset scale (TLC proves this on the model for each case); RNG histories up to a bound are replayed exhaustively; every enumerated builtin combination (thorough; a sample in quick) is simulated at physically meaningful parameters and must be reproduced, not moved by the optimiser, with clps recovered.",
+      "Convergence from perturbed starts is exercised on a fixed list, not modelled (DESIGN §6). Builtin combinations use one parameter point each. Trusted: TLC, numpy RandomState for drivers.",
+      "DESIGN.md §5 C14")
+
 ENGINES = [
     {"name": "Objective", "path": "spec/Objective.tla", "serves_properties": ["C02", "C03", "C13", "C14"], "kind_free_text": "TLA+ staged exact pipeline (Objective.tla, ObjectiveCases.tla) over LinAlg.tla; harness/objective.py, lattice.py, c02.py, c03.py, c13.py, c14.py"},
     {"name": "ClpLink", "path": "spec/ClpLink.tla", "serves_properties": ["C09", "C02"], "kind_free_text": "TLA+ alignment state machine + ClpLinkEmit; harness/c09.py, harness/lattice.py"},
